@@ -74,3 +74,28 @@ class Expander(object):
 
     def text(self, e):
         return unparse(self.expand(e))
+
+    def all_texts(self, e, limit=16):
+        """Expansions of `e` under *every* combination of reaching definitions of the variables it uses
+        (a variable assigned on several paths yields several texts)."""
+        import copy
+        import itertools
+        names = []
+        for n in ast.walk(e):
+            if isinstance(n, ast.Name) and isinstance(n.ctx, ast.Load) and n.id not in self.stop:
+                d = [v for v in self.defs.get(n.id, []) if getattr(v, 'lineno', 0) <= getattr(n, 'lineno', 10**9)
+                     and self.may_reach(getattr(v, 'lineno', 0), getattr(n, 'lineno', 10**9))]
+                if len(d) > 1 and n.id not in [x[0] for x in names]:
+                    names.append((n.id, d))
+        if not names:
+            return [self.text(e)]
+        out = []
+        for combo in itertools.islice(itertools.product(*[d for _, d in names]), limit):
+            saved = {k: self.defs[k] for k, _ in names}
+            try:
+                for (k, _), v in zip(names, combo):
+                    self.defs[k] = [v]
+                out.append(self.text(e))
+            finally:
+                self.defs.update(saved)
+        return out
